@@ -349,6 +349,8 @@ class Rules:
                 elif x.kind in ("cursor_restore",):
                     break
             cons.reverse()
+            # an advance_by that met the end of the input consumed nothing (chars == []): not consumption
+            cons = [c for c in cons if c.d.get("chars") is None or len(c.d["chars"]) > 0]
             if not cons:
                 continue   # zero-width (recovery) token: R-NONEMPTY / R-ERR-PAIR
             chars = []
@@ -1593,8 +1595,68 @@ class Rules:
              "LEA cannot refute the path to this panic: %s; path conditions: %s" % (msg[:100], "; ".join(seg.st.conds[-6:])[:400]))
 
     # -- R-NEWLINE ---------------------------------------------------------
+    def advance_by_exit_exact(self):
+        """Does Cursor::advance_by account for exactly the characters it consumed when it runs out of input?
+        (ok, why).  Accepted: the delegating form (no accounting of its own, one `self.advance()` per iteration), or
+        no `char_offset` update ahead of the counting loop and a `char_offset` update next to every early exit."""
+        c = self.__dict__
+        if "_abx" not in c:
+            from .rules_struct import live_walk, is_self_field, field_chain
+            b = self.fx.bodies.get("cursor::Cursor::advance_by")
+            res = (False, "Cursor::advance_by not found")
+            if b:
+                def line(x):
+                    try:
+                        return int((x.get("sp") or "").split(":")[-2])
+                    except (ValueError, IndexError):
+                        return -1
+                loops = [x for x, _ in live_walk(b["hir"]) if x.get("k") == "Loop"]
+                adds = [(x, par) for x, par in live_walk(b["hir"]) if x.get("k") in ("AssignOp", "Assign")
+                        and is_self_field(x["l"], "char_offset")]
+                nexts = [x for x, _ in live_walk(b["hir"]) if x.get("k") == "MethodCall" and x.get("name") == "next"
+                         and field_chain(x["recv"])[-1] == "chars"]
+                if len(loops) != 1:
+                    res = (False, "advance_by has %d loops" % len(loops))
+                elif not adds and not nexts:
+                    res = (True, "advance_by delegates to advance()")
+                else:
+                    lp = loops[0]
+                    ahead = [x for x, par in adds if not any(p is lp for p in par) and 0 <= line(x) < line(lp)]
+                    exits = [(x, par) for x, par in live_walk(lp) if x.get("k") == "Ret"]
+                    bare = []
+                    for x, par in exits:
+                        blk = next((p for p in reversed(par) if p.get("k") == "Block"), None)
+                        has = blk is not None and any(y.get("k") in ("AssignOp", "Assign") and is_self_field(y["l"], "char_offset")
+                                                      for st_ in blk.get("stmts", []) for y, _ in F.walk(st_))
+                        if not has:
+                            bare.append(x)
+                    if ahead and exits:
+                        res = (False, "char_offset is advanced ahead of the counting loop and the loop returns early when the input "
+                                      "ends: the characters that were not there are counted")
+                    elif bare:
+                        res = (False, "an early exit of the counting loop does not account for the characters consumed so far")
+                    else:
+                        res = (True, "every early exit of the counting loop accounts for the characters consumed so far")
+            c["_abx"] = res
+        return c["_abx"]
+
+    def advance_short(self, I, st, e):
+        """R-ADVANCE-SHORT: an advance_by(n) call that can meet the end of the input before n characters relies on the
+        early exit of Cursor::advance_by; that exit must then be exact (char offset = characters consumed)."""
+        chars, cnt = e.d.get("chars"), e.d.get("count")
+        if e.d.get("via") != "advance_by" or chars is None or not (isinstance(cnt, Const) and cnt.t == "int") or len(chars) >= cnt.v:
+            return
+        ok, why = self.advance_by_exit_exact()
+        key = "%s|short" % self.sites.key(e)
+        I.ob("R-ADVANCE-SHORT", key, ok, self.sites.where(e),
+             ("advance_by(%d) can run out of input here; %s" % (cnt.v, why)) if ok else
+             ("advance_by(%d) is called where fewer than %d characters may remain (end of input known on the path), and %s: "
+              "the char offset of everything recorded afterwards (EOF token, line starts, errors) is past the end of the text"
+              % (cnt.v, cnt.v, why)))
+
     def may_nl(self, I, st, e, seg_events=None):
         chars = e.d.get("chars")
+        self.advance_short(I, st, e)
         if chars is None:
             cls = advance_class(I, st, e, seg_events)
             key = self.sites.key(e)
